@@ -3,10 +3,12 @@
 //! the `EpochExt` stored at every epoch head, are compared with the Lean whole-chain model
 //! (`chainStep`: `get_block_epoch` statistics -> `next_epoch_ext` -> `number_with_fraction`).
 //!
-//!   ninit <T> <initial> <halving> <ortN> <ortD> <base> <rem> <hash_rate> <len> <compact> <genesis_ts>   -> ok
-//!   nb <number> <timestamp_ms> <uncles>   -> <epoch full value> <compact target> R <block reward> [E <number> <base> <rem> <hr> <start> <len>]
+//!   ninit <T> <initial> <halving> <ortN> <ortD> <base> <rem> <hash_rate> <len> <compact> <genesis_ts> [<secondary_epoch_reward>]   -> ok
+//!   nb <number> <timestamp_ms> <uncles>   -> <epoch full value> <compact target> R <block reward> S <secondary issuance> [E <number> <base> <rem> <hr> <start> <len>]
 //!        (`R`: `block_reward(number)` of the EpochExt the node stored for this block; the `E …` part at
 //!         the first block of an epoch: the stored EpochExt)
+//!   nback                                  -> ok     return to the branch left by the last `nrewind` (A -> B -> A'):
+//!        the following `nb` lines extend the displaced branch until the node re-adopts it
 //!   nrewind <k>                            -> ok     the following `nb` lines extend the branch that forks off
 //!        `k` blocks below the current tip (the displaced blocks stay in the node as a side branch; the
 //!        new branch's blocks are side blocks until it is heavier, then the node reorganises and verifies
@@ -47,7 +49,10 @@ struct Cfg {
     halving: u64,
     len0: u64,
     compact0: u32,
+    sec: u64,
 }
+
+const DEFAULT_SEC: u64 = 613_698_63013698;
 
 fn consensus_of(c: &Cfg) -> Consensus {
     let (_, _, script) = always_success_cell();
@@ -75,6 +80,7 @@ fn consensus_of(c: &Cfg) -> Consensus {
     ConsensusBuilder::new(genesis, epoch0)
         .initial_primary_epoch_reward(Capacity::shannons(c.initial))
         .epoch_duration_target(c.t)
+        .secondary_epoch_reward(Capacity::shannons(c.sec))
         .primary_epoch_reward_halving_interval(c.halving)
         .permanent_difficulty_in_dummy(false)
         .tx_proposal_window(ProposalWindow(2, 10))
@@ -90,6 +96,14 @@ struct Snap {
     epoch_reward_want: u128,
     epoch_blocks: u64,
     epochs_done: u64,
+    epoch_sec_sum: u128,
+}
+
+/// the branch left by the last `nrewind`
+struct Saved {
+    at: Snap,
+    snaps: Vec<Snap>,
+    pool: Vec<BlockView>,
 }
 
 struct Sim {
@@ -115,6 +129,12 @@ struct Sim {
     /// the followed branch is not (yet) the node's best chain
     forking: bool,
     reorgs: u64,
+    epoch_sec_sum: u128,
+    saved: Option<Saved>,
+    can_switch_back: bool,
+    /// number of states kept below the current fork point
+    fork_base: usize,
+    switch_backs: u64,
 }
 
 impl Sim {
@@ -128,10 +148,12 @@ impl Sim {
         let g = consensus.genesis_block().clone();
         let e0 = consensus.genesis_epoch_ext().clone();
         let initial_want = cfg.initial as u128;
+        let sec0 = cfg.sec;
+        assert_eq!(consensus.secondary_epoch_reward().as_u64(), cfg.sec);
         out.begin_case(&format!("node T={} len0={} halving={}", cfg.t, cfg.len0, cfg.halving));
         out.op(
             &format!(
-                "ninit {} {} {} 1 40 {} {} {:#x} {} {:#x} {}",
+                "ninit {} {} {} 1 40 {} {} {:#x} {} {:#x} {} {}",
                 cfg.t,
                 cfg.initial,
                 cfg.halving,
@@ -140,11 +162,12 @@ impl Sim {
                 e0.previous_epoch_hash_rate(),
                 e0.length(),
                 e0.compact_target(),
-                g.timestamp()
+                g.timestamp(),
+                cfg.sec
             ),
             "ok",
         );
-        Sim { cfg, consensus, node, builder, tip: g, pool: vec![], included: HashSet::new(), salt: 0, epoch_uncles: 0, epochs_done: 0, accepted: 0, rejected_variants: 0, epoch_reward_sum: quiet_reward(&e0, 0).unwrap_or(0) as u128, epoch_reward_want: initial_want, epoch_blocks: 1, snaps: vec![], forking: false, reorgs: 0 }
+        Sim { cfg, consensus, node, builder, tip: g, pool: vec![], included: HashSet::new(), salt: 0, epoch_uncles: 0, epochs_done: 0, accepted: 0, rejected_variants: 0, epoch_reward_sum: quiet_reward(&e0, 0).unwrap_or(0) as u128, epoch_reward_want: initial_want, epoch_blocks: 1, snaps: vec![], forking: false, reorgs: 0, epoch_sec_sum: quiet_sec(&e0, 0, sec0).unwrap_or(0) as u128, saved: None, can_switch_back: false, fork_base: 0, switch_backs: 0 }
     }
 
     /// epoch number the block after the tip will be in
@@ -202,19 +225,50 @@ impl Sim {
     }
 
     /// one block with this timestamp and exactly `nunc` uncles; `variants`: also submit off-by-one copies
-    /// continue on the branch forking off `k` blocks below the tip
-    fn rewind(&mut self, out: &mut Out, k: usize) {
-        assert!(k >= 1 && k <= self.snaps.len(), "malformed sequence: nrewind {k} with {} states kept", self.snaps.len());
-        let idx = self.snaps.len() - k;
-        let displaced = if k >= 2 { self.snaps[idx + 1].tip.clone() } else { self.tip.clone() };
-        let sn = self.snaps[idx].clone();
-        self.snaps.truncate(idx);
+    fn snap_now(&self) -> Snap {
+        Snap { tip: self.tip.clone(), epoch_uncles: self.epoch_uncles, epoch_reward_sum: self.epoch_reward_sum, epoch_reward_want: self.epoch_reward_want, epoch_blocks: self.epoch_blocks, epochs_done: self.epochs_done, epoch_sec_sum: self.epoch_sec_sum }
+    }
+
+    fn restore(&mut self, sn: Snap) {
         self.tip = sn.tip;
         self.epoch_uncles = sn.epoch_uncles;
         self.epoch_reward_sum = sn.epoch_reward_sum;
         self.epoch_reward_want = sn.epoch_reward_want;
         self.epoch_blocks = sn.epoch_blocks;
         self.epochs_done = sn.epochs_done;
+        self.epoch_sec_sum = sn.epoch_sec_sum;
+    }
+
+    /// A -> B -> A': return to the branch left by the last `nrewind`; it is a side branch of the node now
+    /// and is extended until the node re-adopts it (its old blocks were verified before, the new ones are not)
+    fn switch_back(&mut self, out: &mut Out) {
+        let sv = self.saved.take().expect("malformed sequence: nback without nrewind");
+        // the first block of the branch being left is an uncle candidate for the re-adopted one
+        let first_of_left = if self.snaps.len() > self.fork_base + 1 { self.snaps[self.fork_base + 1].tip.clone() } else { self.tip.clone() };
+        let left = Saved { at: self.snap_now(), snaps: self.snaps.clone(), pool: self.pool.clone() };
+        self.restore(sv.at);
+        self.snaps = sv.snaps;
+        self.pool = sv.pool;
+        self.pool.push(first_of_left);
+        self.saved = Some(left);
+        self.can_switch_back = false;
+        self.forking = self.node.tip_hash() != self.tip.hash();
+        self.switch_backs += 1;
+        out.op("nback", "ok");
+        out.count("switch-back");
+    }
+
+    /// continue on the branch forking off `k` blocks below the tip
+    fn rewind(&mut self, out: &mut Out, k: usize) {
+        assert!(k >= 1 && k <= self.snaps.len(), "malformed sequence: nrewind {k} with {} states kept", self.snaps.len());
+        self.saved = Some(Saved { at: self.snap_now(), snaps: self.snaps.clone(), pool: self.pool.clone() });
+        self.can_switch_back = true;
+        let idx = self.snaps.len() - k;
+        self.fork_base = idx;
+        let displaced = if k >= 2 { self.snaps[idx + 1].tip.clone() } else { self.tip.clone() };
+        let sn = self.snaps[idx].clone();
+        self.snaps.truncate(idx);
+        self.restore(sn);
         // uncle candidates whose parent is not on the new branch are useless; the first displaced block is one
         let f = self.tip.number();
         self.pool.retain(|u| u.number() <= f + 1);
@@ -226,9 +280,11 @@ impl Sim {
 
     fn step(&mut self, out: &mut Out, ts: u64, nunc: usize, variants: bool) {
         let variants = variants && !self.forking;
-        self.snaps.push(Snap { tip: self.tip.clone(), epoch_uncles: self.epoch_uncles, epoch_reward_sum: self.epoch_reward_sum, epoch_reward_want: self.epoch_reward_want, epoch_blocks: self.epoch_blocks, epochs_done: self.epochs_done });
+        let sn = self.snap_now();
+        self.snaps.push(sn);
         if self.snaps.len() > 64 {
             self.snaps.remove(0);
+            self.fork_base = self.fork_base.saturating_sub(1);
         }
         let avail = self.available_uncles();
         assert!(avail.len() >= nunc, "malformed sequence: {} uncles requested, {} available", nunc, avail.len());
@@ -302,7 +358,14 @@ impl Sim {
             store.get_epoch_ext(&idx).expect("epoch ext")
         };
         let reward = quiet_reward(&own_ext, number);
-        let mut ans = format!("{} {} R {}", e.full_value(), blk.compact_target(), reward.map(|r| r.to_string()).unwrap_or_else(|| "fail".into()));
+        let secv = quiet_sec(&own_ext, number, self.cfg.sec);
+        let mut ans = format!(
+            "{} {} R {} S {}",
+            e.full_value(),
+            blk.compact_target(),
+            reward.map(|r| r.to_string()).unwrap_or_else(|| "fail".into()),
+            secv.map(|r| r.to_string()).unwrap_or_else(|| "fail".into())
+        );
         // property oracles on the node's accepted chain
         if !e.is_well_formed() || (parent.number() > 0 && !e.is_successor_of(parent.epoch())) {
             out.oracle_fail("epoch-fields-not-consecutive", &format!("{op}: {:#x} after {:#x}", e.full_value(), parent.epoch().full_value()));
@@ -345,6 +408,11 @@ impl Sim {
             if self.epoch_blocks == prev_len && self.epoch_reward_sum != self.epoch_reward_want {
                 out.oracle_fail("chain-epoch-block-rewards-sum", &format!("{op}: epoch before {} of {} blocks: sum {} scheduled {}", ext.number(), prev_len, self.epoch_reward_sum, self.epoch_reward_want));
             }
+            // … and exactly the consensus' secondary epoch reward
+            if self.epoch_blocks == prev_len && self.epoch_sec_sum != self.cfg.sec as u128 {
+                out.oracle_fail("chain-epoch-secondary-sum", &format!("{op}: epoch before {} of {} blocks: sum {} secondary_epoch_reward {}", ext.number(), prev_len, self.epoch_sec_sum, self.cfg.sec));
+            }
+            self.epoch_sec_sum = 0;
             self.epoch_reward_sum = 0;
             self.epoch_blocks = 0;
             self.epoch_reward_want = want as u128;
@@ -356,6 +424,7 @@ impl Sim {
         out.op(&op, &ans);
         out.count("block");
         self.epoch_reward_sum += reward.unwrap_or(0) as u128;
+        self.epoch_sec_sum += secv.unwrap_or(0) as u128;
         self.epoch_blocks += 1;
         self.epoch_uncles += nunc as u64;
         for u in uncles {
@@ -383,6 +452,10 @@ impl Sim {
 
 fn quiet_reward(ext: &ckb_types::core::EpochExt, number: u64) -> Option<u64> {
     std::panic::catch_unwind(std::panic::AssertUnwindSafe(|| ext.block_reward(number).ok().map(|c| c.as_u64()))).ok().flatten()
+}
+
+fn quiet_sec(ext: &ckb_types::core::EpochExt, number: u64, sec: u64) -> Option<u64> {
+    std::panic::catch_unwind(std::panic::AssertUnwindSafe(|| ext.secondary_block_issuance(number, Capacity::shannons(sec)).ok().map(|c| c.as_u64()))).ok().flatten()
 }
 
 /// per-epoch behaviour of the generated chain
@@ -434,6 +507,17 @@ fn run_generated(out: &mut Out, rng: &mut Rng, base: &std::path::Path, cfg: Cfg,
         // fork episodes: leave the best chain a few blocks below the tip — preferably below an epoch
         // boundary just crossed, so that the new branch ends the epoch with other statistics — and go on
         // with another pace / uncle policy until the node has reorganised onto the new branch
+        // A -> B -> A': once the node has adopted the new branch, half of the time go back to the displaced
+        // one and extend it until the node re-adopts it
+        if !sim.forking && sim.can_switch_back {
+            if rng.chance(1, 2) {
+                sim.switch_back(out);
+                ts = sim.tip.timestamp();
+                policy = gen_policy(rng, &cfg, sim.tip.epoch().length().max(1));
+                continue;
+            }
+            sim.can_switch_back = false;
+        }
         if !sim.forking && !sim.snaps.is_empty() && sim.tip.number() > 0 && ((!new_epoch && e.number() > 0 && e.index() < 3 && rng.chance(1, 2)) || rng.chance(1, 50)) {
             let k = (rng.range(1, 6) as usize).min(sim.snaps.len());
             sim.rewind(out, k);
@@ -458,6 +542,7 @@ fn run_generated(out: &mut Out, rng: &mut Rng, base: &std::path::Path, cfg: Cfg,
     if sim.forking {
         out.count("fork-not-adopted");
     }
+    out.extra.insert("switch_backs".into(), (out.extra.get("switch_backs").and_then(|v| v.as_u64()).unwrap_or(0) + sim.switch_backs).into());
     out.extra.insert("reorgs".into(), (out.extra.get("reorgs").and_then(|v| v.as_u64()).unwrap_or(0) + sim.reorgs).into());
     let r = (sim.accepted, sim.rejected_variants, sim.epochs_done);
     sim.finish();
@@ -484,13 +569,17 @@ pub fn run(opts: &Opts) {
                         s.finish();
                     }
                     k += 1;
-                    let cfg = Cfg { t: parse_u(t[1]), initial: parse_u(t[2]), halving: parse_u(t[3]), len0: parse_u(t[9]), compact0: parse_u(t[10]) as u32 };
+                    let cfg = Cfg { t: parse_u(t[1]), initial: parse_u(t[2]), halving: parse_u(t[3]), len0: parse_u(t[9]), compact0: parse_u(t[10]) as u32, sec: if t.len() > 12 { parse_u(t[12]) } else { DEFAULT_SEC } };
                     sim = Some(Sim::start(&mut out, &base, cfg, &format!("replay{k}")));
                 }
                 "nb" => {
                     let s = sim.as_mut().expect("ninit first");
                     assert_eq!(parse_u(t[1]), s.tip.number() + 1, "malformed sequence: block numbers must be consecutive");
                     s.step(&mut out, parse_u(t[2]), parse_u(t[3]) as usize, false);
+                }
+                "nback" => {
+                    let s = sim.as_mut().expect("ninit first");
+                    s.switch_back(&mut out);
                 }
                 "nrewind" => {
                     let s = sim.as_mut().expect("ninit first");
@@ -518,26 +607,26 @@ pub fn run(opts: &Opts) {
     let initial = 1_917_808_21917808u64;
     let mut plans: Vec<(Cfg, u64, u64)> = vec![
         // tiny genesis epoch: lengths double while there are no uncles, jump to the consensus minimum with uncles
-        (Cfg { t: 32, initial, halving: 3, len0: 4, compact0: DIFF_TWO }, 420, 5),
+        (Cfg { t: 32, initial, halving: 3, len0: 4, compact0: DIFF_TWO, sec: 4_999 }, 420, 5),
         // realistic: 150 -> 300 -> [300, 600] ...
-        (Cfg { t: 1200, initial, halving: 2, len0: 150, compact0: 0x2001_0000 }, 1100, 3),
+        (Cfg { t: 1200, initial, halving: 2, len0: 150, compact0: 0x2001_0000, sec: DEFAULT_SEC }, 1100, 3),
     ];
     // many short chains from tiny genesis epochs: most epoch transitions per block
     for _ in 0..(if opts.thorough() { 16 } else { 3 }) * opts.scale {
         let len0 = rng.range(1, 9);
         let t = *rng.pick(&[len0 * 8, len0, 1, 14_400]);
-        plans.push((Cfg { t, initial: if rng.chance(1, 2) { initial } else { rng.range(1, 1 << 50) }, halving: rng.range(1, 4), len0, compact0: *rng.pick(&[DIFF_TWO, 0x2001_0000, 0x1a08_a8b1]) }, 260, 40));
+        plans.push((Cfg { t, initial: if rng.chance(1, 2) { initial } else { rng.range(1, 1 << 50) }, halving: rng.range(1, 4), len0, compact0: *rng.pick(&[DIFF_TWO, 0x2001_0000, 0x1a08_a8b1]), sec: *rng.pick(&[DEFAULT_SEC, 0, 1, 7, 1799, 1800, 1801, u32::MAX as u64]) }, 260, 40));
     }
     if opts.thorough() {
         for i in 0..(3 * opts.scale) {
             let len0 = *rng.pick(&[1u64, 2, 7, 60, 150, 299, 300, 450, 900]);
             let t = *rng.pick(&[len0 * 8, len0 * 2 + 1, 14_400, 60]);
-            plans.push((Cfg { t, initial: if i % 2 == 0 { initial } else { rng.range(1, 1 << 50) }, halving: rng.range(1, 4), len0, compact0: *rng.pick(&[DIFF_TWO, 0x2001_0000, 0x1f00_ffff]) }, 2600, 4));
+            plans.push((Cfg { t, initial: if i % 2 == 0 { initial } else { rng.range(1, 1 << 50) }, halving: rng.range(1, 4), len0, compact0: *rng.pick(&[DIFF_TWO, 0x2001_0000, 0x1f00_ffff]), sec: if i % 3 == 0 { rng.range(0, 5000) } else { DEFAULT_SEC } }, 2600, 4));
         }
     } else {
         for _ in 1..opts.scale {
             let len0 = *rng.pick(&[2u64, 7, 60, 150]);
-            plans.push((Cfg { t: len0 * 8, initial, halving: rng.range(1, 4), len0, compact0: DIFF_TWO }, 700, 3));
+            plans.push((Cfg { t: len0 * 8, initial, halving: rng.range(1, 4), len0, compact0: DIFF_TWO, sec: DEFAULT_SEC }, 700, 3));
         }
     }
     let (mut acc, mut rej, mut eps) = (0, 0, 0);
